@@ -129,7 +129,14 @@ class ScriptedError:
         return jnp.zeros((), dtype=jnp.float64)
 
     def estimate_error_norm(self, state, previous, proposed, *, dt, atol, rtol, damp):
-        del rtol, damp
+        del damp
+        if not isinstance(atol, tuple):
+            # the script travels through `atol`; if the loop hands the tolerances over in another order this is an
+            # observable deviation (event "tolerances"), not a harness failure
+            if self.log is not None:
+                self.log.emit("tolerances", jnp.zeros(()))
+            return jnp.asarray(self.default_ep, dtype=jnp.float64), state + 1.0
+        del rtol
         tab_t, tab_dt, tab_ep = atol
         match = (tab_t == previous.t) & (tab_dt == dt)
         found = jnp.any(match)
